@@ -61,13 +61,22 @@ func concHooks(srv *vs.Server, sc *vs.Scenario, calls *int64Counter) vs.HookHand
 		if k := int64(vs.AsInt(prog["failBurst"])); k > 0 && hook != "customize" && n%(16*k) < k {
 			return vs.HookReply{Status: 500, Body: []byte(`{"injected":true}`)}
 		}
+		// failWhen {field, value, times}: the first `times` calls about a parent whose spec.<field> has that value fail --
+		// with a non-revisioned field ALL per-revision calls of the same sync fail together
+		if fw := vs.AsMap(prog["failWhen"]); len(fw) > 0 && hook != "customize" {
+			ps := vs.AsMap(vs.AsMap(c.Req["parent"])["spec"])
+			if vs.AsStr(ps[vs.AsStr(fw["field"])]) == vs.AsStr(fw["value"]) && calls.fails.Add(1) <= int64(vs.AsInt(fw["times"])) {
+				return vs.HookReply{Status: 500, Body: []byte(`{"injected":true}`)}
+			}
+		}
 		return srv.RunHookProg(prog, c.Req)
 	}
 }
 
 type int64Counter struct {
-	ch chan struct{}
-	n  atomic.Int64
+	ch    chan struct{}
+	n     atomic.Int64
+	fails atomic.Int64
 }
 
 func (c *int64Counter) inc() { c.n.Add(1) }
